@@ -120,6 +120,14 @@ def run_case(ctx, rng, kind, centered, n_dim, n_cov, n_ids, sel_mode,
     feats = {'class': GP.leaf_code(leaf0), 'kind': kind, 'n_dim': n_dim,
              'n_cov': n_cov, 'n_ids': n_ids, 'selection_mode': sel_mode,
              'n_selected': len(sel), 'zero': zero, 'late_n_ids': late}
+    custom_names = n_dim >= 2 and rng.random() < 0.3
+    feats['custom_parameter_then_dim_names'] = bool(custom_names)
+    if custom_names:
+        # (the user's population model names its parameters per dimension:
+        # 'Mean CL', 'Mean V', ...)
+        bn = base.get_parameter_names(exclude_dim_names=True)
+        base.set_parameter_names(['%s/%d' % (n_, j) for j, n_ in
+                                  enumerate(bn)])
     model = chi.CovariatePopulationModel(
         base, chi.LinearCovariateModel(n_cov=n_cov))
     model.set_n_ids(n_ids)
@@ -164,10 +172,16 @@ def run_case(ctx, rng, kind, centered, n_dim, n_cov, n_ids, sel_mode,
              len(sel) > 1 or n_dim > 1 or n_cov > 1,
              sample=dict(feats, selection=given))
     leaf = GP.make_leaf(kind, n_dim, centered, n_cov, sel, n_ids)
+    if custom_names and not late:
+        # ... and names the dimensions afterwards
+        model.set_dim_names(['dim %d' % c_ for c_ in range(n_dim)])
     # ---- counts and names
     names = model.get_parameter_names()
     n_expected = npd * n_dim + len(sel) * n_cov
-    base_names = base.get_parameter_names()
+    # (a coefficient is named after the population parameter it shifts, as
+    # the model itself publishes that parameter)
+    base_names = list(names[:npd * n_dim]) if custom_names \
+        else base.get_parameter_names()
     cov_names = list(model.get_covariate_names())
     # what a getter hands out is the caller's: editing it is not a
     # configuration call
